@@ -37,7 +37,7 @@ OBLIGATIONS = {"size-edge": 20, "order:obs-sorted": 10, "order:opposite": 10, "o
                "bias:standard": 50, "bias:normalised": 50, "bias:log": 50,
                "nse": 50, "kge": 50, "corr:Pearson:mean": 30,
                "corr:Pearson:median": 30, "corr:Spearman:mean": 30,
-               "corr:Spearman:median": 30, "excludenull:nan": 30, "excludenull:huge-complete-pair": 30,
+               "corr:Spearman:median": 30, "excludenull:nan": 30, "corr:some-members-missing": 20, "corr:one-member-infinite": 20, "excludenull:huge-complete-pair": 30,
                "excludenull:inf": 30, "excludenull:transform-nan": 20, "excludenull:corr": 10,
                "trans:Log": 20, "trans:BoxCox2": 20, "trans:Reciprocal": 20,
                "trans:Sinh": 20, "perfect": 30, "meansim": 20,
@@ -313,8 +313,14 @@ def run_scores_case(ctx, case):
     # ---- the same numbers in another memory layout / container / exact dtype
     prng = np.random.default_rng(digest(obs, sim) % 2 ** 32)
 
+    # (a simulation whose spread is at its rounding level has no correlation: KGE is then
+    # NaN or a number according to the order in which the values are summed - not judged)
+    ss_ = float(np.std(tsv))
+    kge_defined = ss_ > 1e-11 * max(1e-300, float(np.max(np.abs(tsv)))) and ss_ > 1e-9
+
     def allscores(o, s_):
-        out = [call(m.nse, o, s_, trans, excl), call(m.kge, o, s_, trans, excl)] + \
+        out = [call(m.nse, o, s_, trans, excl),
+               call(m.kge, o, s_, trans, excl) if kge_defined else 0.0] + \
             [call(m.bias, o, s_, trans, excl, t_) for t_ in ("standard", "log")]
         for v in out:
             if isinstance(v, Exception):
@@ -340,6 +346,8 @@ def run_scores_case(ctx, case):
                                         ("kge", lambda o, s_: m.kge(o, s_, trans, excl)),
                                         ("bias", lambda o, s_: m.bias(o, s_, trans, excl,
                                                                       "standard")))):
+            if nm_ == "kge" and not kge_defined:
+                continue
             ctx.tag("documented-shape:" + fnm)
             ctx.api(nm_)
             got_ = call(f_, fo.copy(), fs_.copy())
@@ -432,6 +440,54 @@ def run_corr_case(ctx, case):
                           "corr|excludenull", case,
                           lambda: {"got": repr(got), "ref": ref,
                                    "rows_removed": int((~okr).sum())})
+    # forecasts with *some* members missing or infinite: the ensemble statistic is that of
+    # the members present (a mean with an infinite member is infinite: an incomplete
+    # pair; a median may well be finite)
+    if ens.shape[1] >= 2 and len(obs) >= 8 and case.get("nullrows") is not None:
+        prs = np.random.default_rng(digest(obs, ens) % 2 ** 31 + 9)
+        for what in ("some-members-missing", "one-member-infinite"):
+            ens3 = ens.copy()
+            rows3 = prs.choice(len(obs), size=max(2, len(obs) // 5), replace=False)
+            for r_ in rows3:
+                k_ = int(prs.integers(1, ens.shape[1]))
+                cols_ = prs.choice(ens.shape[1], size=k_ if what.startswith("some") else 1,
+                                   replace=False)
+                ens3[r_, cols_] = np.nan if what.startswith("some") else \
+                    [np.inf, -np.inf][int(prs.integers(0, 2))]
+            with np.errstate(all="ignore"), warnings.catch_warnings():
+                warnings.simplefilter("ignore")
+                te3 = np.asarray(trans.forward(ens3), dtype=float)
+                stats3 = {"mean": np.array([np.nanmean(r) if (~np.isnan(r)).any() else np.nan
+                                            for r in te3]),
+                          "median": np.array([np.nanmedian(r) if (~np.isnan(r)).any()
+                                              else np.nan for r in te3])}
+            if np.isnan(te3[~np.isnan(ens3)]).any():
+                continue                    # (the transform itself made other gaps)
+            for stat in ("mean", "median"):
+                ts3 = stats3[stat]
+                ok3 = np.isfinite(to) & np.isfinite(ts3)
+                if ok3.sum() < 4 or np.std(ts3[ok3]) == 0:
+                    continue
+                c3, cs3 = cond(to[ok3]), cond(ts3[ok3])
+                if c3 is None or cs3 is None:
+                    continue
+                ctx.tag("corr:" + what)
+                ctx.api("corr")
+                got3 = call(m.corr, obs, ens3, trans, True, stat, "Pearson")
+                ref3 = ref_pearson(to[ok3].tolist(), ts3[ok3].tolist())
+                ctx.check("corr.partial-rows", eq(got3, ref3, 1e-9 * (c3 + cs3)),
+                          f"corr|excludenull|{what}|{stat}", case,
+                          lambda: {"got": repr(got3), "ref": ref3,
+                                   "rows_with_gaps": int(len(rows3)),
+                                   "rows_kept": int(ok3.sum())})
+                if not ok3.all():
+                    # without the switch an incomplete pair makes the score missing
+                    gotn = call(m.corr, obs, ens3, trans, False, stat, "Pearson")
+                    ctx.check("corr.partial-rows-nan", isinstance(gotn, float) and
+                              math.isnan(gotn),
+                              f"corr|number-returned-with-an-incomplete-pair|{what}|{stat}",
+                              case, lambda: {"got": repr(gotn),
+                                             "incomplete_pairs": int((~ok3).sum())})
     # the same numbers in another memory layout / container / exact dtype
     prng = np.random.default_rng(digest(obs, ens) % 2 ** 32)
 
